@@ -17,6 +17,8 @@ MODELS: Dict[str, pathlib.Path] = {
     "basic": VERIF / "models" / "c08_basic.py",
     "hierarchy": VERIF / "models" / "c08_hierarchy.py",
     "bytes": VERIF / "models" / "c11_bytes.py",
+    # a diamond whose root constrains a property and whose sides and bottom tighten it (length, pattern, set)
+    "diamond": VERIF / "models" / "c02_diamond_tighten.py",
     # models which the front end may legitimately REJECT (then there is nothing to compare); if it accepts them, the
     # generated verification must still agree with Python
     "may-reject:filter": VERIF / "models" / "c08_filter.py",
